@@ -192,7 +192,8 @@ pub mod probe {
     pub const OUT_ASTRAL: usize = 26;
     pub const BIG_VALUE: usize = 27;
     pub const FWD_JUMP: usize = 28;
-    pub const N: usize = 29;
+    pub const MULTI_LIMB: usize = 29;
+    pub const N: usize = 30;
     pub const NAMES: [&str; N] = [
         "jump_taken",
         "heart_return_taken",
@@ -223,6 +224,7 @@ pub mod probe {
         "out_astral_char",
         "value_over_64_bits",
         "forward_jump_taken",
+        "value_over_32_bits",
     ];
 }
 
@@ -274,6 +276,9 @@ impl Machine {
         }
         if b > 64 {
             self.probes[probe::BIG_VALUE] += 1;
+        }
+        if b > 32 {
+            self.probes[probe::MULTI_LIMB] += 1;
         }
         if let Rat::V { n, d } = v {
             if !d.is_one() {
